@@ -873,7 +873,7 @@ def wsq_level_f(ctx, lib):
 
 def check_C02(ctx):
     wsq_level_f(ctx, build_lib())
-    run_design(ctx, 'PeekCache', 'PeekCache.cfg')      # the hint cache of the work-stealing API's peek (model only)
+    run_design(ctx, 'PeekCache', 'PeekCache.cfg' if ctx.quick else 'PeekCache_big.cfg', timeout=3600)      # the hint cache of the work-stealing API's peek (model only)
     std_check(ctx, [('MC_Core', 'MC_Core_small.cfg')], gen_queue_prog, 30, 6,
               [('qtake_wrong_thread', mut_first(lambda e: e['e'] == 'QTake' and e['a'][1] > 0, set_arg(1, lambda v: v + 1))),
                ('qpop_duplicate', mut_first(lambda e: e['e'] == 'QPop' and e['a'][1] > 0, lambda evs, i: evs[:i + 1] + [evs[i]] + evs[i + 1:])),
